@@ -326,6 +326,10 @@ class PointTier(textgrid_tier.TextgridTier):
         else:
             newPoint = entry
 
+        # Labels carry no surrounding whitespace (see _homogenizeEntries)
+        if newPoint.label != newPoint.label.strip():
+            newPoint = Point(newPoint.time, newPoint.label.strip())
+
         matchList = []
         i = None
         for i, point in enumerate(self.entries):
